@@ -148,6 +148,9 @@ Example C26_nonvacuous :
 Proof.
   split; [vm_compute; reflexivity|]. split; [vm_compute; reflexivity|]. split.
   - eexists. split; [vm_compute; reflexivity|].
-    cbn. repeat (constructor || split); unfold len_ok; cbn; lia.
+    Opaque enc_msg enc_entry enc_packed_elem len_ok.
+    cbn.
+    Transparent enc_msg enc_entry enc_packed_elem len_ok.
+    repeat (constructor || split); unfold len_ok; vm_compute; reflexivity.
   - split; vm_compute; reflexivity.
 Qed.
